@@ -20,6 +20,33 @@ CHECKS = {
         note='Bounded: exhaustive only within the stated id domains and lengths. Trusted: ' + TB + '; projection reads _dict/_queue.'),
 }
 
+CHECKS.update({
+    'C01': dict(
+        level='model_checking', design='5/C01',
+        technique='TLC enumerates every (content, cut) scenario of ShellScen with expected values computed by the TLA+ Decode rule (cross-checked exhaustively against CPython); replay into shell/exec_out/streaming_shell sync+async; random traces validated against TraceEnv',
+        text='Every output of <= 4 (thorough 5) symbols over an alphabet with a split-able 3-byte UTF-8 sequence, an invalid byte and ASCII, cut into WRITE payloads in every way, '
+             'is replayed into all six API variants of both implementations and compared with values computed by TLC; large random outputs/cuts/fragmentations/ids are validated as traces by the Layer-A monitor.',
+        note='Exhaustive only within the symbol bound; decode=True content restricted to the cross-checked alphabet. Trusted: ' + TB),
+    'C02': dict(
+        level='model_checking', design='5/C02',
+        technique='TLA+ frame encoder (AdbFrame/FrameTable) evaluated by TLC over boundary arguments and payload classes, compared with AdbMessage.pack/unpack/checksum; every host frame of random sessions judged by AdbFrame!FrameClause in TraceEnv',
+        text='5103 table rows (7 commands x 81 boundary argument pairs x 9 payload classes incl. 1 MiB of 0xFF) computed by an encoder that shares no code with struct/adb_message, '
+             'compared byte for byte for bytes and bytearray payloads; plus the complete outgoing byte stream of random sessions framed by an independent parser and checked clause by clause by TLC.',
+        note='Not all 2^64 argument pairs: boundary table plus observed packets. Payloads > 8 MiB outside the integer range. Trusted: ' + TB),
+    'C04': dict(
+        level='model_checking', design='5/C04',
+        technique='protocol monitor AdbMon checked by TLC as an invariant of the design spec AdbHost (all stream shapes, all schedules/device orderings); transition tours replayed into sync+async devices; random sessions validated against TraceEnv',
+        text='The AOSP stream rules (fresh non-zero id, arg1=0, NUL-terminated OPEN, id pair on every later packet, one OKAY per consumed WRITE, stop-and-wait, one CLSE, nothing after CLSE) are one TLA+ monitor; '
+             'TLC shows the design satisfies it for every interleaving, the tours show the code follows the design, and random sessions with adversarial ids are judged by the same monitor.',
+        note='Bounded models (<= 2 threads, <= 2 chunks). Device orderings limited to those adbd can produce (OKAY(k) before reply(k)). Trusted: ' + TB),
+    'C06': dict(
+        level='model_checking', design='5/C06',
+        technique='TLC on AdbHost (intended vs as-built deviation constants; safety, deadlock, liveness under WF); transition tour replay into real threads and asyncio tasks; random real-code schedules validated against TraceEnv with the K1 history signature',
+        text='Exhaustive exploration of 2-3 concurrent operations at critical-section granularity on the design; every edge of the as-built 2-thread graph replayed on the real code with state comparison; '
+             'independent schedule exploration of the real code judged by the Layer-A monitor. K1 is a known finding (KNOWN_FINDINGS.txt).',
+        note='Preemption only at lock/transport boundaries; line-level preemption inside critical sections not explored. Trusted: ' + TB + '; the scheduler runs one thread at a time.'),
+})
+
 NOT_YET = {}
 
 
